@@ -20,6 +20,8 @@ UNIT_CATS = ('convert-from-unit', 'sum-mix', 'add-units', 'to-storage', 'from-st
 
 
 def run(ctx):
+    from .configtime import no_shared_mutable_defaults as _mutdef
+    _mutdef(ctx, 'C10.R1', classes=('Container', 'Plate'))
     from .configtime import precision_zero_is_a_value as _prec0
     _prec0(ctx, 'C10.R2', classes=('Container', 'Plate', 'PlateSlicer'))
     from . import unitspec as _us
